@@ -42,7 +42,7 @@ func (r *txtAPIFirmwareReadSeeker) Seek(offset int64, whence int) (int64, error)
 	if resultingOffset < 0 {
 		return -1, fmt.Errorf("negative resulting offset %d on Seek with arguments: %d %v", resultingOffset, offset, whence)
 	}
-	if resultingOffset >= consts.BasePhysAddr {
+	if resultingOffset > consts.BasePhysAddr {
 		return -1, fmt.Errorf("resulting offset %d is higher than 4GiB on Seek with arguments: %d %v", resultingOffset, offset, whence)
 	}
 
